@@ -110,7 +110,8 @@ def structure(x, depth=0, hashpos=False, acc=None):
 def build(spec):
     if isinstance(spec, dict) and '$c' in spec:
         kind = spec['$c']
-        items = [build(i) for i in spec.get('v', [])]
+        items = [] if kind == 'freshgen' else [
+            build(i) for i in spec.get('v', [])]
         if kind == 'list':
             return items
         if kind == 'tuple':
@@ -121,6 +122,10 @@ def build(spec):
             return frozenset(items)
         if kind == 'gen':
             return (i for i in items)
+        if kind == 'freshgen':
+            # every item is built only when the consumer asks for it, and
+            # nothing else keeps it alive (a cursor / JSON-lines reader)
+            return (build(i) for i in spec.get('v', []))
         if kind == 'iter':
             return iter(items)
         if kind == 'dict':
@@ -181,7 +186,7 @@ def documents(depth=3):
             return draw(scalars)
         if k <= 5:
             kind = draw(st.sampled_from(['list', 'list', 'tuple', 'gen',
-                                         'iter']))
+                                         'iter', 'freshgen', 'freshgen']))
             return {'$c': kind, 'v': draw(st.lists(sub, max_size=4))}
         if k <= 7:
             keys = draw(st.lists(hashable_scalars, max_size=3, unique_by=repr))
@@ -191,6 +196,22 @@ def documents(depth=3):
                                                unique_by=lambda v: (v == v, v)
                                                ))}
     return doc()
+
+
+def fresh_generator_docs():
+    """generators yielding freshly built nested containers"""
+    item = st.recursive(
+        st.integers(0, 9),
+        lambda ch: st.builds(lambda v: {'$c': 'list', 'v': v},
+                             st.lists(ch, min_size=1, max_size=3)),
+        max_leaves=6)
+    return st.builds(lambda v, wrap: wrap({'$c': 'freshgen', 'v': v}),
+                     st.lists(item, min_size=3, max_size=8),
+                     st.sampled_from([
+                         lambda g: g,
+                         lambda g: {'$c': 'list', 'v': [g]},
+                         lambda g: {'$c': 'dict', 'kv': [['k', g]]},
+                         lambda g: {'$c': 'freshgen', 'v': [g, g]}]))
 
 
 def _has_set_list_clash(spec):
@@ -242,7 +263,8 @@ def _same_doc(got, exp, s2l):
 
 def _nontrivial_doc(spec):
     if isinstance(spec, dict) and '$c' in spec:
-        if spec['$c'] in ('tuple', 'set', 'frozenset', 'gen', 'iter'):
+        if spec['$c'] in ('tuple', 'set', 'frozenset', 'gen', 'iter',
+                          'freshgen'):
             return True
         subs = spec.get('v', []) + [v for k, v in spec.get('kv', [])]
         return any(_nontrivial_doc(s) for s in subs)
@@ -386,7 +408,58 @@ def check_interface_fn(run, case):
             name, args, r, bad[:3]), input_class='node:' + bad[0][1])
 
 
-REPLAY = {'roundtrip': check_roundtrip, 'kind': check_kind,
+def check_copy_family(run, case):
+    """engines derived from one base engine with copy(options) / called
+    with per-call options finalise according to *their* options"""
+    text = case['text']
+    base = common.engine({'yaql.limitIterators': 1000}, cache=False) \
+        if case.get('fresh_base') else _family_base()
+    run.case(case, True, fp=(text, tuple(map(tuple, case['order']))),
+             cls='copy-family')
+    for t2l, s2l in case['order']:
+        opts = {'yaql.convertTuplesToLists': t2l,
+                'yaql.convertSetsToLists': s2l}
+        ctx1 = common.child()
+        ctx2 = common.child()
+        for k, v in _data().items():
+            ctx1[k] = yutils.convert_input_data(v)
+        for k, v in _data().items():
+            ctx2[k] = yutils.convert_input_data(v)
+        try:
+            if case.get('per_call'):
+                got = ('ok', base(text, opts).evaluate(context=ctx1))
+            else:
+                got = ('ok', base.copy(opts)(text).evaluate(context=ctx1))
+        except Exception as e:   # noqa
+            got = ('exc', type(e).__name__)
+        try:
+            exp = ('ok', _engine(t2l, s2l)(text).evaluate(context=ctx2))
+        except Exception as e:   # noqa
+            exp = ('exc', type(e).__name__)
+        if got[0] != exp[0] or (got[0] == 'ok' and (
+                common.snapshot(got[1]) != common.snapshot(exp[1]))):
+            run.violate('copied-engine-finalises-with-other-options', case,
+                        '%s through %s with tuples->lists %s, sets->lists '
+                        '%s: %r; engine created with these options: %r' % (
+                            text, 'engine(text, options)' if case.get(
+                                'per_call') else 'engine.copy(options)',
+                            t2l, s2l, got[1], exp[1]),
+                        input_class='copy-family')
+            return
+
+
+_FAMILY = {}
+
+
+def _family_base():
+    if 'b' not in _FAMILY:
+        _FAMILY['b'] = common.engine({'yaql.limitIterators': 1000},
+                                     cache=False)
+    return _FAMILY['b']
+
+
+REPLAY = {'copy-family': check_copy_family,
+          'roundtrip': check_roundtrip, 'kind': check_kind,
           'interface-fn': check_interface_fn}
 
 
@@ -400,11 +473,28 @@ def kind_cases(draw):
         OPTS))), 'interface': draw(st.integers(0, 4)) == 0}
 
 
+@st.composite
+def copy_cases(draw):
+    e = draw(st.sampled_from(['set(1, 2)', '[1, [2, 3]]', '$', '$s',
+                              '[1, 2].toSet()', '{a => [1]}', '[$d, $s]',
+                              '[1, 2].select($)'] + ATOMS[:12]))
+    return {'kind': 'copy-family', 'text': e,
+            'order': [list(o) for o in draw(st.permutations(OPTS))],
+            'per_call': draw(st.booleans()),
+            'fresh_base': draw(st.booleans())}
+
+
 def _shard(run, which, n, shard):
+    if which == 'copy':
+        run.hyp('copy-family', copy_cases(),
+                lambda c: check_copy_family(run, c), n, shard=shard)
+        return
     if which == 'roundtrip':
         cases = st.builds(lambda d, o: {'kind': 'roundtrip', 'doc': d,
                                         'opts': list(o)},
-                          documents(3), st.sampled_from(OPTS))
+                          st.one_of(documents(3), documents(3),
+                                    fresh_generator_docs()),
+                          st.sampled_from(OPTS))
         run.hyp('roundtrip', cases, lambda c: check_roundtrip(run, c), n,
                 shard=shard)
     else:
@@ -438,4 +528,5 @@ def run(run):
     jobs = [('roundtrip', (30000 if full else 2400) // k, i)
             for i in range(k)]
     jobs += [('kinds', (30000 if full else 2400) // k, i) for i in range(k)]
+    jobs += [('copy', (4000 if full else 400) // 4, i) for i in range(4)]
     run.shards(_shard, jobs)
